@@ -850,9 +850,12 @@ func (vx *Vaxis) handleSequence(seq ansi.Sequence) {
 			//
 			// Kitty keyboard protocol disambiguates this scenario,
 			// hopefully people are using that
-			if atomicLoad(&vx.reqCursorPos) {
-				verifC03(vx, "cpr.flag-loaded")
-				atomicStore(&vx.reqCursorPos, false)
+			// The flag is taken in one atomic step: between a
+			// separate load and store CursorPosition could time
+			// out and be called again, and the store would
+			// withdraw the new request
+			if atomic.CompareAndSwapInt32(&vx.reqCursorPos, 1, 0) {
+				verifC03(vx, "cpr.flag-taken")
 				if len(seq.Parameters) != 2 {
 					log.Error("not enough DSRCPR params")
 					return
